@@ -3,6 +3,7 @@ import Driver.C09
 import Log4rsModel.System.Spec
 import Log4rsModel.System.ReconfigSpec
 import Log4rsModel.Json.Spec
+import Log4rsModel.System.RollingSpec
 /-
 System slice (hosted in C01; dispatched to from Driver/C01.lean when the first case field is `sys`).
 case (after `sys`):  appenders  rootLevel  rootRefs(,)  loggers(, of name;level;additive;refs(|))  thread?  records  snap
@@ -29,9 +30,24 @@ def decThresholds (s : String) : Option (List Nat) :=
   if s = "~" then some [] else
   mapM? (fun c => if '0' ≤ c ∧ c ≤ '5' then some (c.toNat - '0'.toNat) else none) s.toList
 
-def decApp (s : String) : Option AppCase :=
-  match splitOnChar ';' s with
-  | [n, m, pre, thr, pat, ast] => do
+def activeName : List Char := "active.log".toList
+def archPattern : List Char := "arch.{}.log".toList
+
+/-- `R<limit>:d` | `R<limit>:w<base>:<count>` -/
+def decRolling (pre : Option Bytes) (s : String) : Option RollSpec :=
+  if !s.startsWith "R" then none else
+  let dir : Log4rs.Roller.Disk := match pre with | some b => ⟨[(activeName, b)]⟩ | none => ⟨[]⟩
+  match splitOnChar ':' (s.drop 1).toString with
+  | [l, "d"] => (decNat l).map fun limit => { limit, roller := .delete, active := activeName, dir }
+  | [l, b, c] =>
+    if !b.startsWith "w" then none else
+    match decNat l, decNat (b.drop 1).toString, decNat c with
+    | some limit, some base, some count =>
+      some { limit, roller := .fixedWindow archPattern base count, active := activeName, dir }
+    | _, _, _ => none
+  | _ => none
+
+def decApp6 (n m pre thr pat ast : String) : Option AppCase := do
     let name ← decStr n
     let mode ← decMode m
     let pre ← decOpt decBytes pre
@@ -40,6 +56,14 @@ def decApp (s : String) : Option AppCase :=
     let pattern ← decStr pat
     let ast ← C09.decAst ast
     pure { name, app := { thresholds, pattern, mode, pre }, ast }
+
+def decApp (s : String) : Option AppCase :=
+  match splitOnChar ';' s with
+  | [n, m, pre, thr, pat, ast] => decApp6 n m pre thr pat ast
+  | [n, m, pre, thr, pat, ast, roll] => do
+    let a ← decApp6 n m pre thr pat ast
+    let rs ← decRolling a.app.pre roll
+    pure { a with app := { a.app with rolling := some rs } }
   | _ => none
 
 def decNames (sep : Char) (s : String) : Option (List Name) := mapM? decStr (decList sep s)
@@ -118,11 +142,28 @@ def astsOf (apps : List AppCase) (a : Name) : List Pat :=
   | some x => x.ast
   | none => []
 
-def renderSnapshot (files : List (Name × Bytes)) : String := ",".intercalate (files.map fun p => encBytes p.2)
+def renderDir (d : Log4rs.Roller.Disk) : String :=
+  let files := d.files.mergeSort (fun a b => !(String.ofList b.1 < String.ofList a.1))
+  "D:" ++ encList ";" (files.map fun f => String.ofList f.1 ++ "=" ++ encBytes f.2)
+
+/-- per appender, in table order: a file appender's bytes, or a rolling appender's directory -/
+def renderState (st : FilesState) : String :=
+  ",".intercalate (st.apps.map fun p => match p.2.roll with
+    | some (_, rst) => renderDir rst.disk
+    | none => encBytes p.2.file.disk)
 
 def renderOutcomes (os : List (Outcome Unit FilesState)) : String :=
   if os.any (fun o => (observe o).isNone) then "PANIC"
-  else "/".intercalate (os.map fun o => match observe o with | some fs => renderSnapshot fs | none => "PANIC")
+  else "/".intercalate (os.map fun o => match o with | .ok st => renderState st | _ => "PANIC")
+
+/-- `D:name=bytes;…` of the implementation's observation as a lookup -/
+def decDir (s : String) : Option (List (List Char × Bytes)) :=
+  if !s.startsWith "D:" then none else
+  mapM? (fun e => match splitOnChar '=' e with
+    | [n, b] => (decBytes b).map fun bytes => (n.toList, bytes)
+    | _ => none) (decList ';' (s.drop 2).toString)
+
+def isRolling (a : AppCase) : Bool := a.app.rolling.isSome
 
 def nonAscii (s : List Char) : Bool := s.any (fun c => c.toNat ≥ 128)
 
@@ -175,8 +216,26 @@ def handle : Handler := fun cas obs =>
           let prefixes : List (List SysRecord) :=
             if snap then (List.range rs.length).map (fun k => rs.take (k + 1)) else [rs]
           let want : List (List Bytes) := prefixes.map fun pre => (specFiles cfg asts pre).map (·.2)
+          let want : List (List Bytes) := want.map fun w => (apps.zip w).map fun (a, b) => if isRolling a then [] else b
+          let gotRaw : List (List String) := (splitOnChar '/' implResult).map (splitOnChar ',')
           let got : Option (List (List Bytes)) :=
-            mapM? (fun s => mapM? decBytes (splitOnChar ',' s)) (splitOnChar '/' implResult)
+            mapM? (fun (snapshot : List String) => mapM? (fun (e : String) => if e.startsWith "D:" then some [] else decBytes e) snapshot) gotRaw
+          -- rolling appenders: the C05 / C06 specification on every snapshot of the directory, for the
+          -- stream delivered by the records logged so far
+          let rollingVerdict : Option String :=
+            (prefixes.zip gotRaw).findSome? fun (pre, snapshot) =>
+              (apps.zip snapshot).findSome? fun (a, e) =>
+                match a.app.rolling with
+                | none => none
+                | some rspec =>
+                  match decDir e with
+                  | none => some "FAIL:rolling appender: unreadable directory snapshot;sig=C01/sys-observation"
+                  | some files =>
+                    let get : List Char → Option Bytes := fun n => (files.find? (fun f => f.1 = n)).map (·.2)
+                    let stream := deliveredStream cfg asts a.name pre
+                    if specRollingOk rspec (a.app.mode == .append) stream get then none
+                    else some ("FAIL:rolling appender " ++ toString (apps.idxOf a) ++ " after " ++ toString pre.length ++
+                      " records: the directory is not the delivered stream minus whole oldest files, or the log file exceeds the limit;sig=C01/sys-rolling")
           -- JSON appenders: every line of the implementation's final file, behind what opening left,
           -- is judged by the C12 specification (`Json.specLine`) for the record it belongs to
           let jsonVerdict : Option String :=
@@ -184,7 +243,7 @@ def handle : Handler := fun cas obs =>
             | none => none
             | some files =>
               (apps.zip files).findSome? fun (a, content) =>
-                if !isJson a then none else
+                if !isJson a || isRolling a then none else
                 let pre := Rolling.openContent a.app.mode a.app.pre
                 let expected : List SysRecord := rs.flatMap fun r => List.replicate (specCopies cfg a.name r) r
                 if content.take pre.length ≠ pre then some "FAIL:JSON appender: the file does not start with what opening left;sig=C01/sys-json-line" else
@@ -207,7 +266,8 @@ def handle : Handler := fun cas obs =>
             else match got with
               | none => "FAIL:unreadable observation;sig=C01/sys-observation"
               | some got =>
-                if jsonVerdict.isSome then jsonVerdict.getD ""
+                if rollingVerdict.isSome then rollingVerdict.getD ""
+                else if jsonVerdict.isSome then jsonVerdict.getD ""
                 else if got = want then "ok"
                 else if got.length ≠ want.length then "FAIL:number of snapshots;sig=C01/sys-observation"
                 else
@@ -253,8 +313,22 @@ def handle : Handler := fun cas obs =>
             (if rs.length ≥ 20 then ["long-history"] else []) ++
             (if apps.length ≥ 3 then ["many-appenders"] else []) ++
             (if delivered || thrRejects then [] else ["trivial"])
+          let rotations : Nat := (apps.map fun a => match a.app.rolling with
+            | none => 0
+            | some rspec =>
+              let c := rspec.cfg (a.app.mode == .append)
+              ((Rolling.traceX c (Rolling.init c rspec.dir () 0)
+                ((deliveredStream cfg asts a.name rs).map fun x => Rolling.XOp.op (.append [x] none))).filter
+                  fun e => match e.1 with | some out => out.rolled.isSome | none => false).length).sum
           let tags := tags ++ (if apps.any isJson then ["json-appender"] else []) ++
-            (if apps.any isJson && apps.any (fun a => !isJson a) then ["json-and-pattern"] else [])
+            (if apps.any isJson && apps.any (fun a => !isJson a) then ["json-and-pattern"] else []) ++
+            (if apps.any isRolling then ["rolling-appender", "rotations-" ++ toString (min rotations 7)] else []) ++
+            (if apps.any (fun a => isRolling a && rs.any fun r => specCopies cfg a.name r ≥ 2) then ["rolling-double-attachment"] else []) ++
+            (if apps.any (fun a => match a.app.rolling with | some r => (match r.roller with | .delete => true | _ => false) | none => false)
+              then ["delete-roller"] else []) ++
+            (if apps.any (fun a => match a.app.rolling with | some r => (match r.roller with | .fixedWindow _ _ c => c == 0 | _ => false) | none => false)
+              then ["window-0"] else []) ++
+            (if apps.any isRolling && apps.any (fun a => !isRolling a) then ["rolling-and-file"] else [])
           { model := head ++ model ++ tail, spec, tags }
         | _, _, _, _ => badCase "facts"
       | _ => badCase "observation"
